@@ -214,10 +214,15 @@ class ModelFS:
 
     def rename(self, a, b, op='rename'):
         self._call(op, (a, b), True)
-        n = self.lookup(a)
+        # the kernel resolves both parent directories first, then looks at the source
+        self.parent_dir(a)
         self.parent_dir(b)
+        n = self.lookup(a)
         if a == b:
             return
+        if a.startswith(b + '/'):
+            # the destination is an ancestor of the source
+            raise oserr(errno.ENOTEMPTY, b)
         kb = self.kind(b)
         if n.kind == DIR:
             if b.startswith(a + '/'):
